@@ -23,7 +23,9 @@ TF = 1.0
 FN = 60.0
 
 
-def build_swing(M, D, xd1, x, p):
+def build_swing(M, D, xd1, x, p, Sn=100.0):
+    # M, D, xd1 describe the physical machine on the 100 MVA system base; the data are entered on the machine's own rating
+    k = Sn / 100.0
     ss = systems.new_system()
     ss.add('Bus', dict(idx=1, name='G', Vn=110))
     ss.add('Bus', dict(idx=2, name='INF', Vn=110))
@@ -31,7 +33,7 @@ def build_swing(M, D, xd1, x, p):
         ss.add('Line', dict(idx=f'L{k + 1}', bus1=1, bus2=2, x=x * (1 + 0.5 * k), r=0.0, Vn1=110, Vn2=110))
     ss.add('Slack', dict(idx='S', bus=2, v0=1.0, a0=0.0, Vn=110))
     ss.add('PV', dict(idx='G1', bus=1, p0=p, v0=1.03, Vn=110))
-    ss.add('GENCLS', dict(idx='GEN', bus=1, gen='G1', Vn=110, Sn=100, M=M, D=D, xd1=xd1, ra=0.0, fn=FN))
+    ss.add('GENCLS', dict(idx='GEN', bus=1, gen='G1', Vn=110, Sn=Sn, M=M / k, D=D / k, xd1=xd1 * k, ra=0.0, fn=FN))
     for k in range(2):
         ss.add('Toggle', dict(idx=f'T{k}', model='Line', dev='L2', t=-1, u=0))
     for k in range(2):
@@ -109,9 +111,9 @@ class Swing(Part):
         self.tier = tier
 
     def describe(self, tier):
-        return ('M in (4, 8, 13) x D in (0, 2) x xd1 in (0.2, 0.3) x line x in (0.2, 0.5) x P in (0.4, 0.8) x schedules (none, open at '
+        return ('M in (4, 8, 13) x D in (0, 2) x xd1 in (0.2, 0.3) x line x in (0.2, 0.5) x P in (0.4, 0.8) x machine rating in (100, 250) MVA (same physical machine entered on its own base) x schedules (none, open at '
                 't1 in (0, 0.1, 0.2, 0.35), open at t1 and reclose at t2 from a 4-point lattice, two lines tripped at the same instant) x (trapezoid, backeuler) x h in '
-                '(1/30, 1/60, 1/120)' + ('; quick tier: default + all single and pair deviations of the five parameters' if tier == 'quick' else ''))
+                '(1/30, 1/60, 1/120)' + ('; quick tier: default + all single and pair deviations of the six parameters' if tier == 'quick' else ''))
 
     SCHEDS = [[], [[0.1, 0]], [[0.2, 0]], [[0.35, 0]], [[0.1, 0], [0.25, 1]], [[0.1, 0], [0.4, 1]], [[0.2, 0], [0.3, 1]], [[0.0, 0]],
               [[0.0, 0], [0.2, 1]],
@@ -119,7 +121,7 @@ class Swing(Part):
               [[0.1, 0, 1], [0.1, 0, 2], [0.3, 1, 1]]]
 
     def cases(self, tier):
-        axes = dict(M=(8.0, 4.0, 13.0), D=(0.0, 2.0), xd1=(0.3, 0.2), x=(0.5, 0.2), p=(0.8, 0.4))
+        axes = dict(M=(8.0, 4.0, 13.0), D=(0.0, 2.0), xd1=(0.3, 0.2), x=(0.5, 0.2), p=(0.8, 0.4), Sn=(100.0, 250.0))
         names = list(axes)
         out = []
         for vals in itertools.product(*[axes[k] for k in names]):
@@ -148,7 +150,7 @@ class Swing(Part):
             grid = ((1 / 30, None), (1 / 30, 1e-9), (1 / 60, 1e-9), (1 / 120, 1e-9)) if trap else \
                 ((1 / 30, None), (1 / 120, 1e-9), (1 / 240, 1e-9), (1 / 480, 1e-9))
             for h, tol in grid:
-                ss = build_swing(case['M'], case['D'], case['xd1'], case['x'], case['p'])
+                ss = build_swing(case['M'], case['D'], case['xd1'], case['x'], case['p'], case.get('Sn', 100.0))
                 if not ss.PFlow.run():
                     out.obs = dict(skipped='power flow failed')
                     out.nontrivial = False
